@@ -33,6 +33,7 @@ mod oracle;
 mod par;
 mod rng;
 mod sess;
+mod twothread;
 mod workload;
 
 use ev::Tier;
@@ -87,6 +88,12 @@ fn main() {
                 }
             };
             std::process::exit(code);
+        }
+        "go-job" => {
+            let seed: u64 = args.get(2).and_then(|s| s.parse().ok()).unwrap_or(1);
+            let n: usize = args.get(3).and_then(|s| s.parse().ok()).unwrap_or(3);
+            let scale = args.get(4).map(|s| s.as_str()).unwrap_or("native");
+            std::process::exit(twothread::run(seed, n, scale));
         }
         "replay" => {
             if args.len() < 4 {
